@@ -228,3 +228,77 @@ def check_starred_unpacking(model: RepoModel, rep, RID: str, rels: Iterable[str]
                                   f"{f.qualname} unpacks `{norm(st)[:80]}` without testing that `{src[:50]}` is non-empty: for the one input where it is empty "
                                   f"(a method without parameters) the statement raises ValueError and the phase ends with an unhandled exception")
     return n
+
+
+def check_repeated_fields(model: RepoModel, rep, RID: str, only_handlers: Optional[Iterable[str]] = None) -> int:
+    """a field that the grammar lets repeat (frozen from the pinned tree in sa/tables/repeated_fields.json: the handler read it with
+    find_children_by_field) is still read with the plural accessor: the singular one returns the FIRST occurrence only, the others
+    (the second update expression of a `for`, the second declarator) are silently not lowered"""
+    import json, os
+    tab = json.load(open(os.path.join(os.path.dirname(__file__), "tables", "repeated_fields.json")))["entries"]
+    n = 0
+    for rel, qual, fld in tab:
+        if rel not in model.modules:
+            continue
+        cname, fname = qual.split(".")
+        if only_handlers is not None and fname not in set(only_handlers):
+            continue
+        ci = model.module(rel).classes.get(cname)
+        f = ci.methods.get(fname) if ci else None
+        if f is None:
+            continue
+        plural = singular = None
+        for c in walk_no_nested(f.node):
+            if isinstance(c, ast.Call) and isinstance(c.func, ast.Attribute) and len(c.args) >= 2 and isinstance(c.args[1], ast.Constant) and c.args[1].value == fld:
+                if c.func.attr in ("find_children_by_field", "children_by_field_name"):
+                    plural = c
+                elif c.func.attr in ("find_child_by_field", "child_by_field_name"):
+                    singular = c
+        if plural is None and singular is None:
+            continue
+        n += 1
+        key = f"{rel}::{qual}::every occurrence of field `{fld}` is lowered"
+        if plural is not None:
+            rep.holds(RID, key, rel, plural.lineno, f"`{norm(plural)[:70]}`")
+        else:
+            rep.violation(RID, key, rel, singular.lineno,
+                          f"{qual} reads the field `{fld}` with `{norm(singular)[:70]}`; the grammar lets `{fld}` repeat (the pinned tree read it with "
+                          f"find_children_by_field): only the first occurrence is lowered, the statements of the others -- `j--` in `for (..; i++, j--)` -- "
+                          f"appear in no block and in no control-flow graph")
+    return n
+
+
+def check_bodies_parsed_whole(model: RepoModel, rep, RID: str, rels: Iterable[str], func_filter=None) -> int:
+    """the body of a control statement is lowered by handing the body NODE to parse(): when the handler parses the body's children one by
+    one instead, a body that is itself a statement (`for (..) if (c) x = 1;` without braces) is dissolved -- the inner statement's own
+    handler never runs, its condition disappears and its arm executes unconditionally"""
+    BODY_FIELDS = ("body", "consequence", "alternative")
+    n = 0
+    for rel in rels:
+        mod = model.module(rel)
+        for f in mod.all_funcs():
+            if func_filter is not None and not func_filter(f):
+                continue
+            for a in walk_no_nested(f.node):
+                if not (isinstance(a, ast.Assign) and len(a.targets) == 1 and isinstance(a.targets[0], ast.Name) and isinstance(a.value, ast.Call)
+                        and isinstance(a.value.func, ast.Attribute) and a.value.func.attr == "find_child_by_field" and len(a.value.args) >= 2
+                        and isinstance(a.value.args[1], ast.Constant) and a.value.args[1].value in BODY_FIELDS):
+                    continue
+                B = a.targets[0].id
+                whole = [c for c in walk_no_nested(f.node) if isinstance(c, ast.Call) and isinstance(c.func, ast.Attribute) and c.func.attr == "parse"
+                         and c.args and isinstance(c.args[0], ast.Name) and c.args[0].id == B]
+                piecewise = [L for L in walk_no_nested(f.node) if isinstance(L, ast.For) and isinstance(L.iter, ast.Attribute) and isinstance(L.iter.value, ast.Name)
+                             and L.iter.value.id == B and L.iter.attr in ("named_children", "children")
+                             and any(isinstance(c, ast.Call) and isinstance(c.func, ast.Attribute) and c.func.attr == "parse" for c in ast.walk(L))]
+                if not whole and not piecewise:
+                    continue
+                n += 1
+                key = f"{rel}::{f.qualname}::the `{a.value.args[1].value}` node is lowered as a node"
+                if piecewise and not whole:
+                    rep.violation(RID, key, rel, piecewise[0].lineno,
+                                  f"{f.qualname} lowers the `{a.value.args[1].value}` of the statement child by child (`for .. in {B}.{piecewise[0].iter.attr}`) and "
+                                  f"never hands `{B}` itself to parse(): a brace-less body that is a statement of its own (`for (..) if (c) m = a[i];`) is "
+                                  f"taken apart -- no if_stmt is emitted and the arm runs unconditionally")
+                else:
+                    rep.holds(RID, key, rel, (whole or piecewise)[0].lineno, f"self.parse({B}, ...)")
+    return n
